@@ -110,7 +110,7 @@ Proof. reflexivity. Qed.
 Example ex_check_ctx_detects :
   check_ctx {| cc_env := Emtsp; cc_cls := CMTSPContext; cc_via_registry := true; cc_stepped := true; cc_first := false;
                cc_dims := mkd 1 0 5 0 0; cc_H := 8; cc_emb := [1; 5; 8];
-               cc_td := env_layout Emtsp true (mkd 1 0 5 0 0); cc_out := Some [1; 8] |} = 2%Z.
+               cc_td := env_layout Emtsp true (mkd 1 0 5 0 0); cc_out := None |} = 2%Z.   (* the pre-81bfd82 crash would be seen *)
 Proof. reflexivity. Qed.
 Example ex_check_first : check_first ([0; 1; 1], [true; true; true]) = 0%Z /\ check_first ([0; 1], [true; false]) = 2%Z.
 Proof. split; reflexivity. Qed.
